@@ -64,7 +64,7 @@ impl Scenario for PokClock {
             }
             _ => {
                 p.set("variant", 1);
-                p.set("work_tick_us", if x.chance(1, 3) { 100 } else { 0 });
+                p.set("work_tick_us", if x.chance(1, 3) { std::env::var("VERIF_WORK_TICK_US").ok().and_then(|v| v.parse().ok()).unwrap_or(400) } else { 0 });
                 let ti = ((index / 6) % TIMEOUTS.len() as u64) as usize;
                 p.set("timeout_idx", ti as i64);
                 if x.chance(1, 10) {
@@ -292,7 +292,7 @@ impl<'a> World<'a> {
         let e_ns: i128 = cv - (t as i128) * 1_000_000;
         let targ: Vec<u8> = timeout.map(|v| v.to_le_bytes().to_vec()).unwrap_or_default();
         // "time flows with work": in a part of the runs every heap allocation inside the library call advances the
-        // verifier's clock by 100 us. The statement is about the age of the proof when it is PRESENTED: a verifier that
+        // verifier's clock by 400 us (a pairing-heavy call does a few milliseconds of work over a handful of allocations). The statement is about the age of the proof when it is PRESENTED: a verifier that
         // reads its clock only after doing the work sees the proof older than it was (and may time it out); one that
         // reads it on entry sees exactly the age the model uses.
         let tick_ns = self.plan.get("work_tick_us").max(0) as u64 * 1000;
